@@ -341,11 +341,25 @@ def counts(E):
             G.Ket(0) >> G.H >> G.Bra(0),
             G.Ket(0, 0) >> G.H @ Id(1) >> G.CX >> G.Bra(0) @ G.Bra(0),
             G.H >> G.Bra(1),
+            G.Ket(0) @ G.Bits(1) >> G.H @ Id(bit) >> G.Bra(0) @ Id(bit),
+            G.Ket(0) @ G.Bits(1, 0) >> G.Rx(0.3) @ Id(bit ** 2)
+            >> G.Bra(1) @ Id(bit ** 2),
             G.Ket(0) @ G.Ket(0) @ G.Ket(0) >> G.H @ G.H @ Id(1)
             >> Id(1) @ G.CX]
     c = E.choice('circuit', pool)
+    # is_mixed: some box is mixed, or bits and qubits sit side by side at
+    # some depth
+    mixed_types = any(t.count(bit) and t.count(qubit)
+                      for t in [c.dom] + [l.cod for l in c.layers.boxes])
+    E.check(c.is_mixed == (mixed_types or any(b.is_mixed for b in c.boxes)),
+            "C12:is_mixed:wrong", info=str(c))
     ev = np.asarray(c.init_and_discard().eval(mixed=True).array,
                     dtype=complex)
+    if c.is_mixed or mixed_types:
+        dflt = np.asarray(c.eval().array, dtype=complex)
+        E.check(bool(np.allclose(dflt.flatten(), np.asarray(
+            c.eval(mixed=True).array, dtype=complex).flatten())),
+            "C12:eval:mixed-circuit-evaluated-as-pure", info=str(c))
     n = len(c.init_and_discard().cod)
     postselected = any(isinstance(b, G.Bra) for b in c.boxes)
     E.check((postselected or abs(ev.sum() - 1) < 1e-9)
@@ -401,7 +415,7 @@ def harnesses(tier):
           "Discard, Copy, generic stochastic 1-bit gate}" % (2 if q else 3),
           outside="deeper circuits", timeout_s=T),
         H("counts", counts, {}, FUNCS, covers=["counts"],
-          engine="numeric cross-check on 14 concrete circuits (get_counts / "
+          engine="numeric cross-check on 16 concrete circuits (get_counts / "
           "measure use .real and truthiness: cannot carry symbols)",
-          bounds="14 fixed circuits", outside="everything symbolic",
+          bounds="16 fixed circuits", outside="everything symbolic",
           timeout_s=T)]
